@@ -11,10 +11,12 @@ VERIF = os.path.dirname(os.path.dirname(os.path.abspath(__file__)))
 ALL = ["C%02d" % i for i in range(1, 21)]
 PENDING = {}
 
+# only verticals the integrator has accepted (reviewed, check passes on the unchanged tree) are claimed
+ACCEPTED = [l.strip() for l in open(os.path.join(VERIF, "lib", "accepted.txt")) if l.strip()]
 checks = []
 for pid in ALL:
     cfg = props.PROPS.get(pid)
-    if not cfg:
+    if not cfg or pid not in ACCEPTED or "manifest" not in cfg:
         continue
     m = cfg["manifest"]
     checks.append({
@@ -29,7 +31,7 @@ for pid in ALL:
         "technique": m["technique"],
     })
 na = [{"property_id": p, "reason": PENDING.get(p, "check not built yet (work in progress in this session); planned per DESIGN.md section 4")}
-      for p in ALL if p not in props.PROPS]
+      for p in ALL if p not in [c['property_id'] for c in checks]]
 man = {
     "version": 1,
     "setup_cmd": "./setup.sh",
